@@ -15,13 +15,33 @@ Definition kind_eqb (a b : site_kind) : bool :=
 
 Inductive verdict : Type := Harmless (reason : string) | Finding (id : string).
 (* one audited entry covers the sites (file, function, kind, expression) with ordinal < count *)
-Record audit : Type := mkAudit { a_file : string; a_func : string; a_kind : site_kind; a_expr : string; a_count : nat; a_verdict : verdict }.
+Record audit : Type := mkAudit { a_file : string; a_func : string; a_kind : site_kind; a_expr : string; a_count : nat;
+                                 a_fp : string;      (* fingerprint of the owning function the verdict was given for *)
+                                 a_verdict : verdict }.
 
-Definition audit_covers (a : audit) (s : site) : bool :=
+Definition audit_key (a : audit) (s : site) : bool :=
   String.eqb (a_file a) (s_file s) && String.eqb (a_func a) (s_func s) && kind_eqb (a_kind a) (s_kind s)
-  && String.eqb (a_expr a) (s_expr s) && Nat.ltb (s_ord s) (a_count a).
+  && String.eqb (a_expr a) (s_expr s).
+Definition audit_covers (a : audit) (s : site) : bool := audit_key a s && Nat.ltb (s_ord s) (a_count a).
 Definition audited (tbl : list audit) (s : site) : bool := existsb (fun a => audit_covers a s) tbl.
 Definition unaudited_sites (tbl : list audit) (ss : list site) : list site := filter (fun s => negb (audited tbl s)) ss.
+(* a stale entry: the table pins a site (or a number of sites) the tree no longer has *)
+Definition audit_exact (ss : list site) (a : audit) : bool :=
+  Nat.eqb (List.length (filter (audit_key a) ss)) (a_count a).
+Definition stale_entries (tbl : list audit) (ss : list site) : list audit := filter (fun a => negb (audit_exact ss a)) tbl.
+(* the verdict is pinned to the code: the owning function (and its same-package callees) still
+   has the fingerprint the entry records *)
+Fixpoint fp_lookup (f fn : string) (l : list (string * string * string)) : option string :=
+  match l with
+  | [] => None
+  | (f', fn', h) :: r => if String.eqb f f' && String.eqb fn fn' then Some h else fp_lookup f fn r
+  end.
+Definition audit_fp_ok (fps : list (string * string * string)) (a : audit) : bool :=
+  match fp_lookup (a_file a) (a_func a) fps with Some h => String.eqb h (a_fp a) | None => false end.
+Definition changed_functions (tbl : list audit) (fps : list (string * string * string)) : list (string * string) :=
+  map (fun a => (a_file a, a_func a)) (filter (fun a => negb (audit_fp_ok fps a)) tbl).
+Definition audit_table_ok (tbl : list audit) (ss : list site) (fps : list (string * string * string)) : bool :=
+  forallb (audited tbl) ss && forallb (audit_exact ss) tbl && forallb (audit_fp_ok fps) tbl.
 
 Definition has_site (ss : list site) (f fn : string) (k : site_kind) : bool :=
   existsb (fun s => String.eqb (s_file s) f && String.eqb (s_func s) fn && kind_eqb (s_kind s) k) ss.
